@@ -57,7 +57,7 @@ def run_intro_check(sc, tier, pid, mode, text):
         for e in evs:
             if mode == "c16" and "second" in e:
                 s = e["second"]
-                extra.append(dict(e, ok=s["ok"], err=s["err"], rebuilt=s["schema"], typeAgrees=True, probes=[], via="second-gateway"))
+                extra.append(dict(e, ok=s["ok"], err=s["err"], rebuilt=s["schema"], typeAgrees=True, aliasAgrees=True, concurrentAgrees=True, probes=[], via="second-gateway"))
         n += len(evs)
         runs.append({"id": "shard%d" % k, "reset": {"ev": "Reset"}, "events": evs + extra})
     rej, _, st = vlib.validate_lenient(sc, "IntrospectTrace", "IntrospectTrace.cfg", runs, "intro", chunk_events=400)
